@@ -193,8 +193,9 @@ func genWrapIP(c *lib.Ctx) {
 		if i < 6 {
 			plan = [][3]int{{1, 3, 0}, {1, 0, 3}, {1, 1, 3}, {0, 1, 3}, {1, 2, 0}, {0, 0, 1}}[i]
 		}
-		ctx, cancel := context.WithTimeout(context.Background(), 80*time.Millisecond)
+		ctx, cancel := context.WithTimeout(context.Background(), 300*time.Millisecond)
 		clk.reset()
+		resetHeartbeat()
 		start := time.Now()
 		la := &net.UDPAddr{IP: net.IPv4(127, 0, 0, 1).To4()}
 		ra := net.UDPAddrFromAddrPort(p.addr)
@@ -224,7 +225,7 @@ func genWrapIP(c *lib.Ctx) {
 				timingBad = true
 				continue
 			}
-			if time.Since(start) > 30*time.Millisecond {
+			if time.Since(start) > 80*time.Millisecond {
 				timingBad = true // the peer was stalled: the context deadline may interfere with the plan
 			}
 			ri := parseReq(buf[:nb])
@@ -253,7 +254,7 @@ func genWrapIP(c *lib.Ctx) {
 			made++
 		}
 		cancel()
-		if timingBad || r0.panic != "" {
+		if timingBad || r0.panic != "" || starved(40*time.Millisecond) {
 			c.Count("wrapip:discarded")
 			continue
 		}
